@@ -434,6 +434,13 @@ func goHelper(v VD, lg *runLog) interface{} {
 		}
 	case 107:
 		return func(x interface{}) interface{} { return x }
+	case 108:
+		// a helper that fills defaults into the options map it was given (Go-only: the model
+		// classifies calls of it as outside its fragment)
+		return func(o map[string]interface{}) string {
+			o["seen"] = len(o) + 1
+			return "m"
+		}
 	case 106:
 		ret := v.Els[1].Go(lg)
 		rs, _ := ret.(string)
